@@ -1582,8 +1582,8 @@ fn gen_line(rng: &mut Rng, nstmts: usize) -> Case {
 impl Engine for SqlEngine {
     fn gen_cases(&self, rng: &mut Rng, tier: Tier) -> Vec<Case> {
         let (lines, per) = match tier {
-            Tier::Quick => (150, 10),
-            Tier::Thorough => (2000, 20),
+            Tier::Quick => (600, 12),
+            Tier::Thorough => (6000, 15),
         };
         (0..lines).map(|_| gen_line(rng, per)).collect()
     }
